@@ -15,7 +15,7 @@ open Cal Odo
     fixed-offset location satisfies the expression (incl. day rules; impossible dates are never
     rolled over) -/
 theorem C01_sound (f : Fields) (hwf : WellFormed f = true) (c prev : Int)
-    (hc : -100000 ≤ c ∧ c ≤ 100000) (hp : 0 ≤ prev)
+    (hc : -100000 ≤ c ∧ c ≤ 100000) (hp : -9223372036854775808 ≤ prev)
     (r : Int) (h : nextFire {} f (fixedZone c) prev = .ok r) :
     r % 1000000000 = 0 ∧ prev < r ∧ Matches f (Civil.ofSeconds (r / 1000000000 + c)) := by
   obtain ⟨t, ht, rfl⟩ := nextFire_ok f hwf c prev hc hp r h
@@ -67,5 +67,33 @@ example : Matches ex31st ⟨1970, 3, 31, 0, 0, 0⟩ := by
 
 /-- a fixed offset east of UTC (+02:00): 12:00 local is 10:00 UTC -/
 example : nextFire {} exNoon (fixedZone 7200) 0 = .ok 36000000000000 := by decide +kernel
+
+/-! ### a `prev` before 1970 (negative): the hypothesis on `prev` is only "an int64 value" -/
+
+/-- `* * * * * ?` — every second -/
+def exEvery : Fields :=
+  { sec := ⟨[], 0⟩, min := ⟨[], 0⟩, hour := ⟨[], 0⟩, dom := ⟨[], 0⟩, month := ⟨[], 0⟩,
+    dow := ⟨[], 0⟩, year := ⟨[], 0⟩ }
+
+theorem exEvery_wf : WellFormed exEvery = true := by decide
+
+/-- prev = half a second before the epoch: its second is the floor `-1`, the next second is the epoch
+    itself (truncation towards zero would answer 1 s) -/
+theorem exEvery_neg : nextFire {} exEvery (fixedZone 0) (-500000000) = .ok 0 := by decide +kernel
+
+/-- prev = one day and 1 ns before the epoch: the answer is 1969-12-31T12:00:00Z, itself negative -/
+theorem exNoon_neg : nextFire {} exNoon (fixedZone 0) (-86400000000001) = .ok (-43200000000000) := by
+  decide +kernel
+
+/-- `C01_sound` at a negative `prev` -/
+example : (0 : Int) % 1000000000 = 0 ∧ (-500000000 : Int) < 0 ∧
+    Matches exEvery (Civil.ofSeconds (0 / 1000000000 + 0)) :=
+  C01_sound exEvery exEvery_wf 0 (-500000000) (by omega) (by omega) _ exEvery_neg
+
+example : Matches exNoon (Civil.ofSeconds (-43200000000000 / 1000000000 + 0)) :=
+  (C01_sound exNoon exNoon_wf 0 (-86400000000001) (by omega) (by omega) _ exNoon_neg).2.2
+
+example : Civil.ofSeconds (-43200000000000 / 1000000000 + 0) = ⟨1969, 12, 31, 12, 0, 0⟩ := by
+  decide +kernel
 
 end Cron
